@@ -37,14 +37,27 @@ def impl_blocks(rows, location=None):
     if location is not None:
         kw["location_sheet"] = NullLocationFile().make_location_sheet(None if location == "anonymous" else location)
 
+    import zlib
+    crc = zlib.crc32(repr(rows).encode("utf-8", "replace"))
+    form = crc % 7
+    # a handler may return anything but None ("If None is returned the block is silently ignored"): in a third of
+    # the cases it returns an empty container (as the default METADATA handler does for `key:` rows without values)
+    falsy = (crc // 7) % 3 == 0
+
+    class _Empty(dict):
+        pass
+
     def rec(cell_grid, origin=None, fixer=None):
-        return ([list(r) for r in cell_grid], origin.input_location.row)
+        res = ([list(r) for r in cell_grid], origin.input_location.row)
+        if falsy:
+            e = _Empty()
+            e.res = res
+            return e
+        return res
 
     handlers = {bt: rec for bt in BlockType}
     out = []
     # rows are "sequences": lists, tuples, 1-D object arrays (a grid given as numpy array), pandas Series
-    import zlib
-    form = zlib.crc32(repr(rows).encode("utf-8", "replace")) % 7
     if form == 1:
         rows = [tuple(r) for r in rows]
     elif form == 2 and all(not isinstance(c, (list, tuple)) for r in rows for c in r):
@@ -56,9 +69,26 @@ def impl_blocks(rows, location=None):
                 a[k] = c
             conv.append(a)
         rows = conv
-    for bt, (grid, row) in parse_blocks_stable(iter(rows), block_handlers=handlers, **kw):
+    for bt, blk in parse_blocks_stable(iter(rows), block_handlers=handlers, **kw):
+        grid, row = blk.res if falsy else blk
         out.append({"ty": bt.name, "first": row, "rows": grid})
     return out
+
+
+def default_route_ok(rows, blocks, out, case):
+    """the library's own handlers (to='cellgrid': tables are not parsed) deliver a block for every block of the
+    segmentation, of the same type — whatever the handler's result looks like (an empty MetadataBlock is a block)"""
+    from pdtable.io.parsers.blocks import parse_blocks
+    try:
+        got = [bt.name for bt, _ in parse_blocks(iter(rows), to="cellgrid")]
+    except Exception as e:  # noqa: BLE001
+        out.fail("parse_blocks(to='cellgrid') raised on a row sequence", case, repr(e)[:200], None,
+                 key="default_route_raised:" + type(e).__name__)
+        return
+    want = [b["ty"] for b in blocks]
+    if got != want:
+        out.fail("the default block handlers do not deliver one block per segmented block", case, got, want,
+                 key="default_route_blocks")
 
 
 # ---------------------------------------------------------------- reference (from the property text)
@@ -194,6 +224,10 @@ KIND_SPELLINGS = {
     "nontext": [[1], [1.5], [True], [datetime.datetime(2020, 1, 2)], [0], [float("nan")]],
 }
 KINDS = list(KIND_SPELLINGS)
+LONG_LENGTHS = [63, 64, 65, 127, 128, 129, 255, 256, 257, 258, 511, 512, 513, 1023, 1024, 1025, 4095, 4096, 4097, 8191,
+                8192, 8193, 20000]
+LONG_PRE = ["", "", "**", "***", ":", "::", " ", "****"]
+LONG_SUF = ["", ":", ": ", ":\t ", ":x", " ", "*"]
 
 
 def run(tier, seed, model_ok, translator, search=False):
@@ -266,6 +300,14 @@ def run(tier, seed, model_ok, translator, search=False):
             r = list(rng.choice(KIND_SPELLINGS[k]))
             if rng.random() < 0.3:
                 r = r + [rng.choice(["", "x", None, 2])] * rng.randint(0, 3)
+            if rng.random() < 0.04:
+                # a long first cell (the rule has no length limit): marker prefix / suffix around a long body
+                n_long = rng.choice(LONG_LENGTHS)
+                pre, suf = rng.choice(LONG_PRE), rng.choice(LONG_SUF)
+                body = rng.choice(["a", "ab ", "é", "a:b", "x*"])
+                cell = (pre + body * (n_long // len(body) + 1))[: max(n_long - len(suf), 0)] + suf
+                r = [cell] + r[1:]
+                out.count("long_first_cell")
                 if k in ("blank1", "empty") and len(r) != len(KIND_SPELLINGS[k][0]):
                     pass
             rows.append(r)
@@ -431,6 +473,7 @@ def _one(rows, case, out, ops, pending, model_ok, prefix_rng, record):
         if rows:
             out.nontrivial.add(hash(repr(rows)))
     oracle(rows, blocks, out, case)
+    default_route_ok(rows, blocks, out, case)
     if prefix_rng is not None and rows:
         oracle_prefix(rows, blocks, prefix_rng.randint(0, len(rows)), out, case)
         retained_ok(rows, out, case)
@@ -462,6 +505,7 @@ def replay(rep):
     out = Outcome()
     blocks = impl_blocks(rows)
     oracle(rows, blocks, out, inp)
+    default_route_ok(rows, blocks, out, inp)
     if "cut" in inp:
         oracle_prefix(rows, blocks, inp["cut"], out, inp)
     if out.failures:
